@@ -562,6 +562,20 @@ def parse_init(tree):
     out.append(("class", "ESSearchELL(" + ", ".join(U(b) for b in ell.bases) + ")"))
     if any(isinstance(n, ast.FunctionDef) and n.name in ("__init__", "__call__", "_get_selection_idx_mask_") for n in ell.body):
         raise Untranslatable("[init] ESSearchELL overrides the constructor / the loop / the mask")
+    # census of the writers of the attributes the loop / the mask / the first population read: only the constructor (and, for the step
+    # size, the loop itself) may assign them, anywhere in the module
+    watch = {"lamb", "mu", "vec", "scale", "n_search_iter", "search_acq_fcn", "es_beta", "w", "ns"}
+    for cls in [n for n in tree.body if isinstance(n, ast.ClassDef)]:
+        for f in [n for n in cls.body if isinstance(n, ast.FunctionDef)]:
+            for node in ast.walk(f):
+                tgs = node.targets if isinstance(node, ast.Assign) else [node.target] if isinstance(node, (ast.AugAssign, ast.AnnAssign)) else []
+                for t in tgs:
+                    for e in (t.elts if isinstance(t, ast.Tuple) else [t]):
+                        b = e.value if isinstance(e, ast.Subscript) else e
+                        if isinstance(b, ast.Attribute) and isinstance(b.value, ast.Name) and b.value.id == "self" and b.attr in watch:
+                            ok = (cls.name, f.name) == ("ESSearch", "__init__") or (b.attr == "scale" and (cls.name, f.name) == ("ESSearch", "__call__"))
+                            if not ok:
+                                raise Untranslatable(f"[init] second writer of self.{b.attr}: {cls.name}.{f.name} line {node.lineno}")
     wm = _class(tree, "ESSearchWM")
     if any(isinstance(n, ast.FunctionDef) and n.name in ("__call__", "_get_selection_idx_mask_") for n in wm.body):
         raise Untranslatable("[init] ESSearchWM overrides the loop / the mask")
@@ -592,6 +606,9 @@ def parse_hedge(tree):
     _REGION[0] = "hedge"
     cls = _class(tree, "ESSearchHedge")
     fn = _method(cls, "__call__")
+    meths = sorted(n.name for n in cls.body if isinstance(n, ast.FunctionDef))
+    if meths != ["__call__", "__init__", "update_hedge"]:
+        raise Untranslatable(f"[hedge] ESSearchHedge has methods {meths}: a writer of its state outside the three translated ones")
     body = _body(fn)
     rest, probs = [], []
     h = {}
